@@ -50,8 +50,8 @@ ASSUMPTIONS = [
     'the log file is appended to by design (CommandLog.write_log opens it '
     'with mode "a"): it is an output location, excluded from the result '
     'comparison',
-    'with tmp_dir=None temporaries go to the system temp directory, which is '
-    'shared with other processes and not watched',
+    'the system temp directory is replaced by a private TMPDIR per history '
+    '(watched like a scratch directory)',
     '_clean_up itself does not raise (skeleton semantics)']
 
 STALE_PATTERNS = [
